@@ -364,8 +364,12 @@ pub fn gen_lib_case(rng: &mut Rng) -> LibCase {
         };
     }
     let sched = super::newcase::gen_sched(rng, tasks as usize, n);
-    // one library scenario in three runs on real threads under the shim's scheduler
-    let e3 = rng.chance(1, 3);
+    // The library scenario runs as real threads under the shim's scheduler (E3). The library is
+    // outside the E2 seam, so E2 has no scheduling point in it that E3 lacks (the device, before
+    // and after the fill), while E2's tasks share one OS thread's real thread-locals — a per-thread
+    // pool in the library would look shared there. (The E2 path remains for replay files.)
+    let e3 = true;
+    let _ = rng.chance(1, 3);
     LibCase {
         tasks,
         length,
